@@ -519,6 +519,11 @@ def o_c02_term(tr):
     if status == "panic":
         sig = "e2e:c02:stall" if "stalled" in msg else "e2e:c02:panic"
         bad.append((sig, f"executor {msg[:200]}"))
+    elif status == "deadline":
+        # a scenario that is still making progress when the (virtual) deadline strikes is slow, not hung
+        last = max([r.t for r in tr.of("app") if r.what in ("read", "write", "eof", "finish")] + [0])
+        if t - last > 30_000_000:
+            bad.append(("e2e:c02:hang:deadline", f"scenario did not terminate and made no application progress for {(t - last) // 1000} ms before the deadline"))
     elif status != "ok":
         bad.append(("e2e:c02:hang:" + status, f"scenario did not terminate: {status} {msg[:200]}"))
     for p in tr.panics:
@@ -672,6 +677,7 @@ def o_c09(tr):
         mets = [(i, v[2]) for i, v in enumerate(view) if v[0] == "metrics"]
         bif = 0
         armed = False      # exact bytes-in-flight comparison starts once the handshake spaces are gone
+        stuck_reported = False
         residue = 0
         hs_gone = False
         disc_last = 0
@@ -758,6 +764,10 @@ def o_c09(tr):
                         bad.append(("e2e:c09:bytes-in-flight:leak", f"endpoint {ep} at {v[1]}us reports bytes_in_flight {m['bif']}; unresolved 1-RTT packets sum to {app_out}, excess grew from {residue} to {res}"))
                     armed = True
                     residue = max(res, 0)
+                    # everything of the discarded handshake spaces must be gone shortly after the discard
+                    if residue > 0 and v[1] > disc_t + 1_000_000 and not stuck_reported:
+                        stuck_reported = True
+                        bad.append(("e2e:c09:bytes-in-flight:stuck", f"endpoint {ep} at {v[1]}us still reports {residue} bytes in flight that belong to no unresolved 1-RTT packet, {v[1] - disc_t}us after the handshake spaces were discarded"))
                 if m["srtt"] is not None and m["min_rtt"] is not None and m["latest"] is not None:
                     if m["min_rtt"] > m["latest"] + 1 or m["min_rtt"] > m["srtt"] + 1:
                         bad.append(("e2e:c09:min-rtt", f"endpoint {ep}: min_rtt {m['min_rtt']} above latest {m['latest']} / smoothed {m['srtt']}"))
